@@ -59,6 +59,13 @@ def make_fault(fs, x0=None):
             return val if (c == comp and xx.shape == start.shape and bool((xx == start).all())) else None
 
         return fault
+    if fs[0] == "always":
+        _, comp, val = fs
+
+        def fault(c, total_idx, idx, x):
+            return val if c == comp else None
+
+        return fault
     if fs[0] == "transient":
         _, comp, k, val = fs
 
@@ -152,7 +159,10 @@ def run_group(gs):
         if rs.get("x0_outside"):
             # a user-supplied start outside the variable box (the only iterate the solver never projects)
             d = float(rs["x0_outside"])
-            x0 = np.where(np.isfinite(prob.var_lb), prob.var_lb - d, np.where(np.isfinite(prob.var_ub), prob.var_ub + d, x0))
+            if d > 0:
+                x0 = np.where(np.isfinite(prob.var_lb), prob.var_lb - d, np.where(np.isfinite(prob.var_ub), prob.var_ub + d, x0))
+            else:       # negative: beyond the upper bounds first
+                x0 = np.where(np.isfinite(prob.var_ub), prob.var_ub - d, np.where(np.isfinite(prob.var_lb), prob.var_lb + d, x0))
         if rs.get("obj_limit_at_start"):
             pk["obj_lower_limit"] = float(prob.obj(x0)) + float(rs["obj_limit_at_start"])
         level = getattr(logging, rs.get("loglevel", "WARNING"))
